@@ -39,7 +39,7 @@ PROP = dict(
     extra=[lambda run: run.storage_histories("C02")],
     technique="run-time refinement check of the real back ends against a reference list over random histories (bounded); "
               "with the sqlite methods proved against contracts over the table state (SQL text parsed from the source)",
-    explanation="deductive (sqlite): delete removes exactly the addressed live event of the addressed bucket and nothing else; replace rewrites exactly that row; replace_last rewrites exactly the row a limit-1 read returns (greatest (starttime, endtime, id)), keeping id and bucket; insert_one / insert_many add rows with ids above the high-water mark (never reused: the mark never decreases in any method) and upsert by the last event carrying each id; get_event / get_events / get_eventcount describe exactly the live rows of the bucket - each as a postcondition over the whole table state (every other row of every bucket unchanged), proved from the SQL text in the source under the relational semantics of pyvc/sqlsem.py. At the API level (sqlite configuration) Bucket.insert / delete / replace / replace_last / get_by_id and Datastore.__getitem__ are proved to carry exactly the storage method's postcondition for the handle's own bucket id. deductive (memory): insert_many - the loop MemoryStorage inherits from AbstractStorage (abstract.py), verified against the contract of MemoryStorage.insert_one - appends, for events without ids, one fresh copy per event in order, each equal in value to its event, under an id that differs from the id of every event stored before it (ids are never reused within or across bulk inserts), leaves the stored events and the caller's events untouched; delete removes exactly the last list entry carrying the id and keeps the order of the rest; replace / replace_last rewrite every entry carrying the id (replace_last: the id of an entry with the greatest timestamp) with a copy of the caller's event and touch nothing else; get_event returns a copy of the last entry carrying the id; get_eventcount counts exactly the entries intersecting the window. " 
+    explanation="deductive (sqlite): delete removes exactly the addressed live event of the addressed bucket and nothing else; replace rewrites exactly that row; replace_last rewrites exactly the row a limit-1 read returns (greatest (starttime, endtime, id)), keeping id and bucket; insert_one / insert_many add rows with ids above the high-water mark (never reused: the mark never decreases in any method) and upsert by the last event carrying each id; get_event / get_events / get_eventcount describe exactly the live rows of the bucket - each as a postcondition over the whole table state (every other row of every bucket unchanged), proved from the SQL text in the source under the relational semantics of pyvc/sqlsem.py. At the API level (sqlite configuration) Bucket.insert / delete / replace / replace_last / get_by_id and Datastore.__getitem__ are proved to carry exactly the storage method's postcondition for the handle's own bucket id. deductive (memory): insert_many - the loop MemoryStorage inherits from AbstractStorage (abstract.py), verified against the contract of MemoryStorage.insert_one - appends, for events without ids, one fresh copy per event in order, each equal in value to its event, under an id that differs from the id of every event stored before it (ids are never reused within or across bulk inserts), leaves the stored events and the caller's events untouched; for events that all carry ids (bulk upsert, each call met with the upsert contract of insert_one) a partial contract: length and ids kept position by position, positions whose id no event carries hold the same object, every rewritten position holds an object of the store's own, the caller's events untouched (which event's values win is bounded only); delete removes exactly the last list entry carrying the id and keeps the order of the rest; replace / replace_last rewrite every entry carrying the id (replace_last: the id of an entry with the greatest timestamp) with a copy of the caller's event and touch nothing else; get_event returns a copy of the last entry carrying the id; get_eventcount counts exactly the entries intersecting the window. " 
                 "bounded: random histories of insert / bulk upsert / replace / replace-last / delete / reads on memory, sqlite and "
                 "peewee are compared, after every operation, with a plain per-bucket reference list (contents by id, lookup-by-id, "
                 "counts, metadata); replace-last must rewrite exactly the event a limit-1 read returned immediately before.",
